@@ -42,7 +42,8 @@ its narrower type outside the **open** class `ShrBelowRange`, refuted by `shr_co
 (`<<=`, `>>=`), and the shift nodes of the histories; the as-found left-shift test of the repaired finding
 `C11.shl_to_minus_two_pow_digits_not_flagged` is refuted by `shl_as_found_refuted`.
 Section 7: `storage_twos_complement`, `storage_builtin`, `storage_multiword_is_C10_format` (the storage rule; rests on
-C10), `binOp_exact_typed`, `div_rounded_typed`, `neg_exact_typed`, `cmp_exact_typed`, `convert_exact_or_signal_typed`
+C10), `binOp_exact_typed`, `div_rounded_typed`, `rem_exact_typed` / `mixed_rem_exact` (`%`, `%=`: operands of any two
+narrowest types, e.g. an unsigned dividend and a negative signed divisor; a built-in operand on either side), `neg_exact_typed`, `cmp_exact_typed`, `convert_exact_or_signal_typed`
 (every narrowest type and digit count; `convert_negative_to_unsigned_flagged_first` shows the one hypothesis it adds),
 `mixed_addsub_exact`, `mixed_addsub_aligned_exact`, `mixed_mul_exact`, `mixed_div_rounded`, `mixed_cmp_exact` (a
 built-in operand on either side), with `builtin_operand_scaled_in_its_own_type_refuted`,
@@ -53,7 +54,9 @@ histories (section 5) and shifts (section 6) over a narrowest type other than `i
 section 7, the induction is stated for `int`; `*` with a built-in operand when one operand has a single digit (the
 overflow layer's digit test is then active; its outcome is in the model and in the table); comparisons of a
 static_number with a built-in operand at a different exponent; operands whose narrowest types differ in *width*
-(not instantiated by the harness).  The part of the property that fails is exactly the part the refutations of the open
+(the library has no common elastic type for them: `−` and the comparisons do not compile; the harness instantiates
+(unsigned, signed) and (signed, unsigned) pairs of one width — `tbin2` / `tcmp2` / `tasg2` lines); the conversion back of a
+compound assignment `OP=` is `convert_exact_or_signal_typed` applied to the operator's result (table lines `tasg2`, `mixa`).  The part of the property that fails is exactly the part the refutations of the open
 classes exhibit.
 -/
 namespace Cnl.C11
@@ -659,6 +662,37 @@ theorem div_rounded_typed (c : Cfg) (s t : TNum) (hs : s.InRange) (ht : t.InRang
   rcases binOpT_div_spec c s t hs ht h0 with h | ⟨m, h⟩
   · exact ⟨h.1, h.2⟩
   · exact absurd h (hwf m)
+
+/-- **`%` (and the operator of `%=`) for every pair of narrowest types and digit counts**: in-range operands of a
+well-formed instantiation with a non-zero divisor give — no signal, no undefined behaviour — the exact remainder of
+the truncating division (the sign of the dividend) at the dividend's exponent, in `min` of the two digit counts, signed
+when either narrowest type is, in range.  In particular an unsigned-narrowest dividend against a negative divisor of a
+signed narrowest type: the remainder is `a tmod b`, never `a` itself -/
+theorem rem_exact_typed (c : Cfg) (s t : TNum) (hs : s.InRange) (ht : t.InRange) (h0 : t.x.value ≠ 0)
+    (hwf : ∀ m, remT c s t ≠ .ill m) :
+    remT c s t = .ok ⟨resN .mod s.n t.n, ⟨min s.x.digits t.x.digits, s.x.exp, s.x.value.tmod t.x.value⟩⟩ ∧
+      (⟨resN .mod s.n t.n, ⟨min s.x.digits t.x.digits, s.x.exp, s.x.value.tmod t.x.value⟩⟩ : TNum).InRange := by
+  have hb : remT c s t = (elBin (repOp c) .mod s.toE t.toE >>= fun z => .ok (ofE z s.x.exp)) := rfl
+  rcases Static.elBin_mod c s.toE t.toE hs ht h0 with ⟨h, hf⟩ | ⟨m, h⟩
+  · rw [hb, h]
+    exact ⟨rfl, hf⟩
+  · exact absurd (by rw [hb, h]; rfl) (hwf m)
+
+/-- non-vacuity, and the instance of the seeded change `C11-13`: `static_integer<8, unsigned>{200} % static_integer<4>{-7}`
+is `4` in a signed 4-digit static_integer (not `200`) -/
+example : remT ⟨.nrst, .thr⟩ ⟨u32, ⟨8, 0, 200⟩⟩ ⟨i32, ⟨4, 0, -7⟩⟩ = .ok ⟨i32, ⟨4, 0, 4⟩⟩ := by decide
+
+/-- **`%` with a built-in operand** on either side: the exact remainder, whatever the two exponents -/
+theorem mixed_rem_exact (c : Cfg) (n : IntTy) (s t : Opnd) (hs : s.OK) (ht : t.OK) (h0 : t.value ≠ 0)
+    (hwf : ∀ m, remO c n s t ≠ .ill m) :
+    remO c n s t = .ok ⟨resN .mod (s.raw n).n (t.raw n).n,
+        ⟨min (s.raw n).x.digits (t.raw n).x.digits, s.exp, s.value.tmod t.value⟩⟩ := by
+  have h := (rem_exact_typed c _ _ (Opnd.raw_inRange n hs) (Opnd.raw_inRange n ht)
+    (by rw [Opnd.raw_value]; exact h0) hwf).1
+  rw [Opnd.raw_exp, Opnd.raw_value, Opnd.raw_value] at h
+  exact h
+
+example : remO ⟨.nrst, .thr⟩ u32 (.stat ⟨u32, ⟨8, 0, 255⟩⟩) (.builtin i32 (-2)) = .ok ⟨i32, ⟨8, 0, 1⟩⟩ := by decide
 
 /-- **unary minus**: exact, same digits, in the signed narrowest type of the same width -/
 theorem neg_exact_typed (t : TNum) (ht : t.InRange) (hwf : ∀ m, negT t ≠ .ill m) :
